@@ -814,12 +814,13 @@ def oracle(case, impl_out, reply):
         if spec is not None and (spec['status'] != expected_status or len(spec['collected']) != n):
             fails.append('exit_status: reference status %r for %d problems, implementation shows %r for %d' % (
                 spec['status'], len(spec['collected']), expected_status, n))
-        if 'expect' in case:
+        expect = EXPECT.get((case['kind'], case['text']))
+        if expect is not None:
             got = [[r['cls'], _lineno_of(r)] for r in cap['collected']]
             if cap['raised'] is not None:
                 got.append(['FATAL', None])
-            if got != case['expect']:
-                fails.append('same_problems: expected problems %r, capture mode collected %r' % (case['expect'], got))
+            if got != expect:
+                fails.append('same_problems: expected problems %r, capture mode collected %r' % (expect, got))
         return fails
     return fails
 
@@ -1153,6 +1154,8 @@ MODE_CASES = [
     ('plugin', 'pybtex.backends|latex', []),
 ]
 
+EXPECT = {(k, t): e for k, t, e in MODE_CASES}   # known answers for the hand-made inputs (looked up by the exact text)
+
 BIB_BASES = [GOOD_BIB,
              '@article{a, author = {A, B and C, D}, title = {T}, year = 2000}\n@book{b, title = "x" # jan, crossref = {a}}\n',
              '@misc{m1, note = {n}}\n@misc{m2, note = {o}}\n@misc{m1, note = {p}}\n']
@@ -1211,7 +1214,7 @@ def gen_cases(tier, rng, info):
     fm = [{'op': 'fmtchars', 'value': ''.join(t)} for n in (1, 2, 3) for t in itertools.product(letters, repeat=n)]
     cases += fm
     for kind, text, expect in MODE_CASES:
-        cases.append({'op': 'errmodes', 'kind': kind, 'text': text, 'expect': expect})
+        cases.append({'op': 'errmodes', 'kind': kind, 'text': text})
     info['exhaustive'] = True
     info['scope'] = ('errhist: all %d prefix-balanced histories of <=%d operations over %r (closed with the missing exits) x 2 start modes; '
                      'errrender: %d grid instances over all %d classes + %d TokenRequired instances = every in-range parser state of every text '
